@@ -79,7 +79,7 @@ def write_impl_trace(scn, fixes, outdir, name='TR'):
 EXTENDS DesyncImpl, Json, IOUtils, TLCExt
 %(consts)s
 Rec == ndJsonDeserialize(IOEnv.TRACE)
-VARIABLE l
+VARIABLES l, wasBlocked   \\* wasBlocked: processes whose atomic region is (or was) blocked on a nested lock: they resume through a recorded event
 SilentLabels == {%(silent)s}
 Allowed == (%(allowed)s)
 ProcStep(p) == %(procstep)s
@@ -97,11 +97,17 @@ Match(e) == /\\ \\A o \\in Objs : e.q[o][1] = qstate[o] /\\ e.q[o][2] = Len(jobs
 QS == [o \\in Objs |-> <<qstate[o], Len(jobs[o])>>]
 PrevMatches == (l > 1 /\\ Rec[l - 1].kind = "step") => Match(Rec[l - 1])
 IsSilent(p) == pc[p] \\in SilentLabels \\/ (atomic[p] /\\ pc[p] # "Done" /\\ ~(pc[p] = "st_dormant" /\\ thrHeld = p) /\\ ~(pc[p] \\in {"st_reap", "st_dormant", "st_spawn"} /\\ thrHeld # "" /\\ thrHeld # p))
-SilentPending == \\E p \\in Procs : IsSilent(p)
-TraceInit == Init /\\ l \\in {i + 1 : i \\in {j \\in 1..Len(Rec) : Rec[j].kind = "run"}}
+\\* inside an atomic region a step is silent unless the next recorded event is exactly that step (the region was blocked on a nested lock
+\\* and the real thread announced it)
+SilentOK(p) == IsSilent(p) /\\ p \\notin wasBlocked /\\ ~(atomic[p] /\\ pc[p] \\notin SilentLabels /\\ l <= Len(Rec) /\\ Rec[l].kind = "step" /\\ Rec[l].t = p
+                              /\\ pc[p] \\in DOMAIN Allowed /\\ Tag(Rec[l]) \\in Allowed[pc[p]])
+SilentPending == \\E p \\in Procs : SilentOK(p)
+BlockedNow == {p \\in Procs : atomic[p] /\\ ~IsSilent(p) /\\ pc[p] \\notin SilentLabels /\\ pc[p] # "Done"}
+TraceInit == Init /\\ wasBlocked = {} /\\ l \\in {i + 1 : i \\in {j \\in 1..Len(Rec) : Rec[j].kind = "run"}}
 TraceNext == \\/ /\\ SilentPending
-                /\\ \\E p \\in Procs : IsSilent(p) /\\ ProcStep(p)
+                /\\ \\E p \\in Procs : SilentOK(p) /\\ ProcStep(p)
                 /\\ l' = l
+                /\\ wasBlocked' = wasBlocked
              \\/ /\\ ~SilentPending
                 /\\ l <= Len(Rec)
                 /\\ Rec[l].kind = "step"
@@ -111,7 +117,8 @@ TraceNext == \\/ /\\ SilentPending
                 /\\ PrevMatches
                 /\\ ProcStep(Rec[l].t)
                 /\\ l' = l + 1
-TraceSpec == TraceInit /\\ [][TraceNext]_<<vars, l>>
+                /\\ wasBlocked' = (wasBlocked \\cup BlockedNow) \\ {Rec[l].t}
+TraceSpec == TraceInit /\\ [][TraceNext]_<<vars, l, wasBlocked>>
 AtEnd == l <= Len(Rec) /\\ Rec[l].kind = "end" /\\ ~SilentPending /\\ PrevMatches
 EndViol == IF AtEnd THEN ObsQuiescent(h, QS, MC_Single).viol ELSE {}
 DebugL == IF "DEBUGL" \\in DOMAIN IOEnv THEN IOEnv.DEBUGL ELSE "0"
